@@ -173,6 +173,10 @@ def nodeStep (ns : Nodes) (toks : List String) : Option (Nodes × String) :=
       let i ← natOf i
       let n : Worker.WNode := { me := ← idOfTok me, inst := ← natOf inst }
       pure (setNode ns i n, "init")
+  | [i, "garbage"] => do     -- unreadable content: both loops drop it before anything else happens
+      let i ← natOf i
+      let n ← getNode ns i
+      pure (ns, pNode n [])
   | i :: ev :: rest => do
       let i ← natOf i
       let n ← getNode ns i
